@@ -45,6 +45,30 @@ Proof.
 Qed.
 Print Assumptions C16_emit_perm_invariant.
 
+(* ---- sorted(S, key=k): a stable sort by the keys.  Covered only for an injective key (site class SSorted with a key that
+   contains the element itself); every other keyed sort of a set is site class SSortedByKey, which `sites_covered` rejects *)
+Theorem C16_key_sorted_invariant : forall (key : string -> string), (forall a b, key a = key b -> a = b) ->
+  forall l l' : list string, Permutation l l' ->
+  sort_by_key string string String.leb key l = sort_by_key string string String.leb key l'.
+Proof.
+  intros key inj l l' H. apply key_sorted_perm_invariant; try assumption.
+  - apply String.leb_total.
+  - apply String.leb_antisym.
+  - apply string_leb_trans.
+Qed.
+Print Assumptions C16_key_sorted_invariant.
+
+(* why SSortedByKey is not covered: two LSP methods with the same derived constant name, sorted by that name, come out in the
+   iteration order of the set — the output depends on the hash seed *)
+Definition constant_name_of (m : string) : string :=
+  if String.eqb m "workspaceSymbol/resolve" || String.eqb m "workspace/symbol/resolve" then "WORKSPACE_SYMBOL_RESOLVE" else m.
+Theorem C16_key_sorted_ties_exposed :
+  Permutation ["workspaceSymbol/resolve"; "workspace/symbol/resolve"] ["workspace/symbol/resolve"; "workspaceSymbol/resolve"] /\
+  sort_by_key string string String.leb constant_name_of ["workspaceSymbol/resolve"; "workspace/symbol/resolve"]
+  <> sort_by_key string string String.leb constant_name_of ["workspace/symbol/resolve"; "workspaceSymbol/resolve"].
+Proof. apply key_sorted_ties_exposed; [vm_compute; reflexivity | vm_compute; reflexivity | discriminate]. Qed.
+Print Assumptions C16_key_sorted_ties_exposed.
+
 (* ---- directory listings *)
 Theorem C16_glob_delete_invariant : forall l l' : list string, Permutation l l' ->
   forall (f : fs string content) n, delete_all string String.eqb content l f n = delete_all string String.eqb content l' f n.
